@@ -172,6 +172,9 @@ fn judge_boot(ctx: &Ctx, known_hits: &mut BTreeMap<String, u64>, lost: &BTreeSet
         }
     };
     let recs = scan_all(dir);
+    if std::env::var("NV_C16_DEBUG").is_ok() && node.oplog_discarded_at_boot {
+        eprintln!("    judge {}: the start-up discarded the log", how);
+    }
     if node.oplog_discarded_at_boot {
         // discarded: nothing of the old log may be left, the node asks for a full resynchronisation (last op time 0)
         let old: Vec<&Rec> = recs.iter().filter(|r| expected.contains_key(*r)).collect();
@@ -184,6 +187,9 @@ fn judge_boot(ctx: &Ctx, known_hits: &mut BTreeMap<String, u64>, lost: &BTreeSet
     }
     let id_db = node.dbs.id_name_db_map.read().unwrap().clone();
     let id_key = node.dbs.id_keys_map.read().unwrap().clone();
+    if std::env::var("NV_C16_DEBUG").is_ok() {
+        eprintln!("    judge {}: kept log, {} records, expected {} of them, key ids {:?}, db ids {:?}", how, recs.len(), recs.iter().filter(|r| expected.contains_key(*r)).count(), id_key, id_db);
+    }
     let mut dangling = false;
     for r in recs.iter() {
         let cands = match expected.get(r) {
@@ -333,11 +339,15 @@ pub fn run_case(ctx: &Ctx, case: &Case) -> Outcome {
     let mut image_between = false;
     let mut known_hits: BTreeMap<String, u64> = BTreeMap::new();
     for (i, st) in case.steps.iter().enumerate() {
-        if case.crash_at == Some(i) && !matches!(st, Step::RestartClean | Step::RestartKill) {
+        // (a restart step is recorded as well: the start-up that discards an invalid log removes several files)
+        if case.crash_at == Some(i) {
             let (r, images) = crash::record(&dir, &root, 400, || exec(ctx, &mut w, st));
             if let Some((sig, d)) = r {
                 fail = Some((sig, format!("step {} {:?}: {}", i, st, d)));
                 break;
+            }
+            if std::env::var("NV_C16_DEBUG").is_ok() {
+                eprintln!("step {} {:?}: {} crash images: {:?}", i, st, images.len(), images.iter().map(|im| im.label.clone()).collect::<Vec<_>>());
             }
             // `expected` now also covers what this step wrote: judge every crash image of the step
             for img in images.iter() {
@@ -345,6 +355,11 @@ pub fn run_case(ctx: &Ctx, case: &Case) -> Outcome {
                 let verdict = match probe_boot(&img.dir) {
                     Err(e) => Some((format!("C16|start-up-fails|crash-before-{}", cls), format!("crash image before `{}` of step {} {:?}: {}", img.label, i, st, e))),
                     Ok(()) => {
+                        if std::env::var("NV_C16_DEBUG").is_ok() {
+                            let mut names: Vec<String> = std::fs::read_dir(&img.dir).map(|rd| rd.filter_map(|e| e.ok()).map(|e| format!("{}:{}", e.file_name().to_string_lossy(), e.metadata().map(|m| m.len()).unwrap_or(0))).collect()).unwrap_or_default();
+                            names.sort();
+                            eprintln!("    image dir of `{}` before boot: {:?}", img.label, names);
+                        }
                         let n = Node::boot_single(&img.dir);
                         images_checked += 1;
                         if cls.contains("oplog-valid-flag") || cls.contains("key-map") {
@@ -360,6 +375,9 @@ pub fn run_case(ctx: &Ctx, case: &Case) -> Outcome {
                         judge_boot(ctx, &mut known_hits, &lost_here, &w.inc, &n, &img.dir, &w.expected, "crash-image").map(|(s, d)| (format!("{}|crash-before-{}", s, cls), format!("crash image before `{}` of step {} {:?}: {}", img.label, i, st, d)))
                     }
                 };
+                if std::env::var("NV_C16_DEBUG").is_ok() {
+                    eprintln!("  image before `{}`: {:?}", img.label, verdict.as_ref().map(|v| v.0.clone()));
+                }
                 if let Some((sig, d)) = verdict {
                     if ctx.is_known(&sig) {
                         *known_hits.entry(sig).or_insert(0) += 1;
